@@ -6,7 +6,7 @@
      Result.Created/Updated/Deleted key sets are compared. *)
 From Helm Require Export Run.RunEng.
 From Coq Require Import List String Bool Arith.
-From Helm Require Import Common.Assoc Engine.Types Engine.Eff Engine.Ops Engine.Cluster Engine.Seq.
+From Helm Require Import Common.Assoc Engine.Types Engine.Eff Engine.Ops Engine.Cluster Engine.Seq Engine.MatchDefs.
 Import ListNotations.
 
 Inductive kverb := KVCreate | KVUpdate | KVDelete.
@@ -73,11 +73,36 @@ Definition kcase_ok (c : kcase) : bool :=
   && (negb ok || ((negb (nodup_strs (keys_of (kc_tgt c))) || strs_seteq up (kc_updated c))
                   && strs_seteq de (kc_deleted c))).
 
-Inductive case := CHist (c : RunEng.case) | CKube (c : kcase).
+(* a history plus, per step, the "[Kind] name" lines of the uninstall response's Info *)
+Inductive case := CHist (c : RunEng.case) (kept : list (list string)) | CKube (c : kcase).
+
+(* [ws]: the world before each step.  A successful real uninstall must list exactly the
+   manifest entries of the latest revision whose policy says keep. *)
+Fixpoint kept_agree (h : list hstep) (ws : list world) (os : list step_obs) (kept : list (list string)) : bool :=
+  match h, ws, os, kept with
+  | [], _, _, _ => true
+  | st :: t, w :: wt, o :: ot, k :: kt =>
+      (match st with
+       | HOp c =>
+           match oc_op c with
+           | OpUninstall fl =>
+               if outcome_eqb (so_out o) OOk && negb (f_dry_run fl) then strs_seteq (model_kept w) k else true
+           | _ => true
+           end
+       | HEdit _ => true
+       end) && kept_agree t wt ot kt
+  | _, _, _, _ => false
+  end.
+
+Definition hist_ok (c : RunEng.case) (kept : list (list string)) : bool :=
+  let w0 := mkW [] (c_init c) in
+  let ms := run_history rn ns (c_steps c) w0 in
+  steps_agree ms (c_obs c)
+  && kept_agree (c_steps c) (w0 :: map (fun m => fst (fst m)) ms) (c_obs c) kept.
 
 Definition case_ok (c : case) : bool :=
   match c with
-  | CHist h => RunEng.case_ok h
+  | CHist h kept => hist_ok h kept
   | CKube k => kcase_ok k
   end.
 
